@@ -77,7 +77,9 @@ type mpFixture struct {
 	fund interfaces.Transaction
 	// tx1 and tx2 spend the same outpoint; tx3 is pooled before the threads start and confirmed
 	// by the block; tx4 is independent
-	tx   [5]*mpTx
+	tx [6]*mpTx
+	// tx5 is an UpdateProducer; cancel is the CancelProducer of the same owner (block only)
+	cancel interfaces.Transaction
 	name map[common.Uint256]string
 	size map[common.Uint256]int
 }
@@ -109,9 +111,18 @@ func setupMempool(f *fixture) *mpFixture {
 	in := func(i uint16) *ctypes.Input {
 		return &ctypes.Input{Previous: ctypes.OutPoint{TxID: m.fund.Hash(), Index: i}}
 	}
-	defs := [][]*ctypes.Input{nil, {in(0)}, {in(0), in(1)}, {in(2)}, {in(3)}}
-	for i := 1; i <= 4; i++ {
+	defs := [][]*ctypes.Input{nil, {in(0)}, {in(0), in(1)}, {in(2)}, {in(3)}, {in(4)}}
+	owner, node := hexKey(0x31), hexKey(0x32)
+	m.cancel = functions.CreateTransaction(ctypes.TxVersion09, ctypes.CancelProducer, 0, &payload.ProcessProducer{OwnerKey: owner, Signature: []byte{1}},
+		[]*ctypes.Attribute{{Usage: ctypes.Nonce, Data: []byte("C40-cancel")}}, nil, nil, 0, []*program.Program{})
+	m.cancel.Hash()
+	for i := 1; i <= 5; i++ {
 		real := mk(defs[i], 1, fmt.Sprintf("C40-tx%d", i))
+		if i == 5 {
+			real = functions.CreateTransaction(ctypes.TxVersion09, ctypes.UpdateProducer, 0,
+				&payload.ProducerInfo{OwnerKey: owner, NodePublicKey: node, NickName: "c40-producer", Url: "http://example.org", Location: 1, NetAddress: "127.0.0.1:20338", Signature: []byte{1}},
+				[]*ctypes.Attribute{{Usage: ctypes.Nonce, Data: []byte("C40-tx5")}}, defs[i], mpOutputs(1), 0, []*program.Program{})
+		}
 		size := real.GetSize()
 		real.SetFee(common.Fixed64((10 + i) * size))
 		h := real.Hash() // cached now: later calls only read
@@ -122,7 +133,7 @@ func setupMempool(f *fixture) *mpFixture {
 	db := &mpTxDB{txs: map[common.Uint256]interfaces.Transaction{m.fund.Hash(): m.fund}}
 	f.chain.UTXOCache = blockchain.NewUTXOCache(db, f.params)
 	blockchain.DefaultLedger = &blockchain.Ledger{Blockchain: f.chain, Store: f.chain.GetDB(), Arbitrators: state.NewArbitratorsMock(nil, 0, 3)}
-	for i := 1; i <= 4; i++ {
+	for i := 1; i <= 5; i++ {
 		if _, err := f.chain.UTXOCache.GetTxReference(m.tx[i]); err != nil {
 			evid.Fatalf("harness: mempool tx%d references: %v", i, err)
 		}
@@ -131,17 +142,30 @@ func setupMempool(f *fixture) *mpFixture {
 	return m
 }
 
-func (m *mpFixture) newPool(f *fixture) (*mempool.TxPool, func()) {
+// newPool: a fresh pool holding tx3 (and, withProducer, the UpdateProducer tx5).
+func (m *mpFixture) newPool(f *fixture, withProducer bool) (*mempool.TxPool, func()) {
 	ckp := checkpoint.NewManager(f.params)
 	pool := mempool.NewTxPool(f.params, ckp)
 	if err := pool.AppendToTxPoolWithoutEvent(m.tx[3]); err != nil {
 		evid.Fatalf("harness: tx3 not admitted into a fresh pool: %v", err)
 	}
+	if withProducer {
+		if err := pool.AppendToTxPoolWithoutEvent(m.tx[5]); err != nil {
+			evid.Fatalf("harness: tx5 (UpdateProducer) not admitted into a fresh pool: %v", err)
+		}
+	}
 	return pool, func() { ckp.Unregister("cp_txPool") }
 }
 
-func (m *mpFixture) block() *types.Block {
-	return &types.Block{Header: ctypes.Header{Height: 1}, Transactions: []interfaces.Transaction{m.tx[3].Transaction}}
+// block confirms tx3; withCancel it also carries the CancelProducer of tx5's owner, which makes
+// the post-block cleanup walk the pool for that producer's pending updates and votes
+// (cleanCanceledProducerAndCR).
+func (m *mpFixture) block(withCancel bool) *types.Block {
+	txs := []interfaces.Transaction{m.tx[3].Transaction}
+	if withCancel {
+		txs = append(txs, m.cancel)
+	}
+	return &types.Block{Header: ctypes.Header{Height: 1}, Transactions: txs}
 }
 
 // snapshotFeeHashes serialises the checkpoint returned by Snapshot() and decodes the persisted
@@ -220,7 +244,7 @@ func (m *mpFixture) poolInvariants(pool *mempool.TxPool) (pooled []string, f *vs
 		bytesSum += uint64(m.size[h])
 	}
 	sort.Strings(pooled)
-	for i := 1; i <= 4; i++ {
+	for i := 1; i <= 5; i++ {
 		if !inPool[m.tx[i].Hash()] {
 			continue
 		}
@@ -280,6 +304,7 @@ func mempoolScens(r *evid.Run) []scen {
 		{Name: "mempool-append2-snapshot-b1", Kind: "mempool-append2-snapshot", Bound: 1},
 		{Name: "mempool-append2-snapshot-b2", Kind: "mempool-append2-snapshot", Bound: 2},
 		{Name: "mempool-append-clean-snapshot-b2", Kind: "mempool-append-clean-snapshot", Bound: 2},
+		{Name: "mempool-append-cancelblock-snapshot-b2", Kind: "mempool-append-cancelblock-snapshot", Bound: 2},
 	}
 	if r.Thorough() {
 		out = append(out, scen{Name: "mempool-append2-snapshot-b3", Kind: "mempool-append2-snapshot", Bound: 3},
@@ -294,6 +319,9 @@ func isMempoolKind(kind string) bool { return strings.HasPrefix(kind, "mempool-"
 //
 //	mempool-append2-snapshot        A: Append(tx1)   B: Append(tx2, same outpoint)   S: Snapshot()
 //	mempool-append-clean-snapshot   A: Append(tx1)   C: block{tx3} cleanup           S: Snapshot()
+//	mempool-append-cancelblock-snapshot   as above on a pool that also holds the UpdateProducer
+//	                                tx5, with the block {tx3, CancelProducer(owner of tx5)}: the
+//	                                cleanup removes tx5 too
 func (f *fixture) mempoolScenario(s scen) *vsched.Scenario {
 	m := setupMempool(f)
 	return &vsched.Scenario{
@@ -301,7 +329,8 @@ func (f *fixture) mempoolScenario(s scen) *vsched.Scenario {
 		Bound:    s.Bound,
 		MaxSteps: 20000,
 		Setup: func() ([]string, []func(), func(*vsched.Exec) (string, *vsched.Fail)) {
-			pool, closePool := m.newPool(f)
+			cancelKind := s.Kind == "mempool-append-cancelblock-snapshot"
+			pool, closePool := m.newPool(f, cancelKind)
 			var errA, errB elaerr.ELAError
 			var snap checkpoint.ICheckPoint
 			names := []string{"appendA"}
@@ -311,7 +340,7 @@ func (f *fixture) mempoolScenario(s scen) *vsched.Scenario {
 				bodies = append(bodies, func() { errB = pool.AppendToTxPoolWithoutEvent(m.tx[2]) })
 			} else {
 				names = append(names, "block")
-				blk := m.block()
+				blk := m.block(cancelKind)
 				bodies = append(bodies, func() {
 					pool.CleanSubmittedTransactions(blk)
 					pool.CheckAndCleanAllTransactions()
@@ -355,7 +384,7 @@ func (f *fixture) mempoolScenario(s scen) *vsched.Scenario {
 					if errA != nil || len(pooled) != 1 || pooled[0] != "tx1" {
 						return outcome, &vsched.Fail{Signature: "C40|mempool|append-clean-result", What: "after Append(tx1) and the cleanup of the block containing tx3 the pool must hold exactly tx1: " + outcome}
 					}
-					if !subset(snapNames, []string{"tx1", "tx3"}) {
+					if !subset(snapNames, []string{"tx1", "tx3", "tx5"}) || (!cancelKind && subset([]string{"tx5"}, snapNames)) {
 						return outcome, &vsched.Fail{Signature: "C40|mempool|snapshot-not-a-pool-state", What: "the snapshot holds a set of transactions the pool never held: " + outcome}
 					}
 				}
@@ -366,11 +395,15 @@ func (f *fixture) mempoolScenario(s scen) *vsched.Scenario {
 	}
 }
 
+var mpFreeRunRep int
+
 // mempoolFreeRun is one repetition of the free-running -race bodies.
 func mempoolFreeRun(f *fixture) {
 	m := setupMempool(f)
-	pool, closePool := m.newPool(f)
-	blk := m.block()
+	mpFreeRunRep++
+	withCancel := mpFreeRunRep%2 == 0 // every other repetition: pooled UpdateProducer + block with its CancelProducer
+	pool, closePool := m.newPool(f, withCancel)
+	blk := m.block(withCancel)
 	var wg sync.WaitGroup
 	wg.Add(6)
 	go func() { defer wg.Done(); pool.AppendToTxPool(m.tx[1]) }()
